@@ -80,9 +80,11 @@ class Enc:
         if getattr(type(x), "_is_proxy", False):
             return "(VObj %s [])" % q("<proxy:%s>" % x._px_name)
         t = type(x)
-        if t.__module__.startswith("hierarc") and hasattr(x, "__dict__"):
-            self.classes[t.__name__] = t
-            return "(VObj %s [%s])" % (q(t.__name__), "; ".join("(%s, %s)" % (q(k), self.val(v, depth + 1)) for k, v in vars(x).items()))
+        hk = next((K for K in t.__mro__ if K.__module__.startswith("hierarc")), None)
+        if hk is not None and hasattr(x, "__dict__"):
+            # (a harness subclass that only stubs external machinery counts as the hierarc class it extends)
+            self.classes[hk.__name__] = t
+            return "(VObj %s [%s])" % (q(hk.__name__), "; ".join("(%s, %s)" % (q(k), self.val(v, depth + 1)) for k, v in vars(x).items() if not k.startswith("_px_skip")))
         self.opaque.append(t.__name__)
         return "(VObj %s [])" % q("<opaque:%s>" % t.__name__)
 
@@ -284,7 +286,7 @@ def make_lemma(idx, case, items):
     obj = case.get("obj")
     if obj is not None:           # the definition Python's MRO picks for this receiver
         for K in type(obj).__mro__:
-            if fn in K.__dict__:
+            if fn in K.__dict__ and K.__module__.startswith("hierarc"):
                 cls = K.__name__
                 break
     enc_self_plain = "VNone" if obj is None else enc.val(obj)
